@@ -145,7 +145,13 @@ func (t zzvTrace) expected() string {
 	if len(pcs) > 16 {
 		pcs = pcs[:16]
 	}
-	return counter.EncodeStack(pcs, "crash/crash")
+	// at most 16 frames: a program counter inside inlined calls renders as one frame per call, so the
+	// rendering of 16 program counters is cut after its 16th frame line
+	name := counter.EncodeStack(pcs, "crash/crash")
+	if lines := strings.Split(name, "\n"); len(lines) > 17 {
+		name = strings.Join(lines[:17], "\n")
+	}
+	return name
 }
 
 type zzvNameOut struct {
@@ -180,10 +186,8 @@ func zzvShape(res *vrep.Result, out zzvNameOut, desc string) {
 		if lines[0] != "crash/crash" {
 			fail("name-prefix", "name starts with %q", lines[0])
 		}
-		// At most 16 program counters are encoded (checked exactly in leg A); a PC inside an
-		// inlined call expands to one line per logical frame, so the line count is bounded by
-		// 16 x the inlining depth (at most 4 in this binary's pool).
-		if len(lines)-1 > 64 && !strings.HasSuffix(out.name, "\ntruncated\n") {
+		// At most 16 frames follow the prefix (a program counter inside inlined calls counts once per call).
+		if len(lines)-1 > 16 {
 			fail("too-many-frames", "%d frame lines", len(lines)-1)
 		}
 		if len(out.name) > 4096 {
